@@ -1,35 +1,54 @@
 /* harness/h_exn.c — engine `exn` (C07): runs try/throw/catch program trees on the real macros.
  *
- * op file: one program per line, `P <sexp>` with  program ::= (s N) | (t N) | (q P P) | (c P (N*) P) | (f P)
- * Each program runs in a forked child (an uncaught exception exits the process).  The child streams its events
- * through a pipe; the parent prints
- *   O trace=<events> end=<normal|fatal|abort|signal> depth=<len(current(Exception)) after, or - >
+ * op file: one program per line, `P <sexp>` with
+ *   program ::= (s N) | (t K) | (n) | (m K) | (r) | (q P P) | (c P (K*) P) | (f P) | (d N P)
+ *     (s N)        statement N
+ *     (t K)        throw(kind K, "kind %i", $I(K))
+ *     (n)          throw(NULL, "null")                          — outside the object domain of C07
+ *     (m K)        throw(kind K, "kind %i")  (too few arguments) — outside the object domain of C07
+ *     (r)          throw(x, "re") where x is the variable bound by the innermost enclosing handler (top level: TypeError)
+ *     (q P P)      P; P
+ *     (c P (K*) P) try { P } catch (e in K*) { P }              — filter arity 0…4
+ *     (f P)        P in a callee frame;  (d N P)  P called through N frames
+ * or `L a b c f1 f2 f3` (three lexically nested blocks in one C function).
+ * Each program runs in a forked child under alarm() (an uncaught exception exits the process, an overflow of the jump
+ * buffer array aborts it, a filter that lists an object twice makes exception_catch loop for ever).  The child streams
+ * its events through a pipe; the parent prints
+ *   O trace=<events> end=<normal|fatal|abort|hang|signal|other> depth=<len(current(Exception)) after, or - >
  * and checks the direct oracle (a reference interpreter of structured exceptions, written here independently of the
- * Lean model) plus: exit status is EXIT_FAILURE and stderr carries the "Uncaught" diagnostic for an escaping exception. */
+ * Lean model) plus: exit status is EXIT_FAILURE and stderr carries the "Uncaught" diagnostic for an escaping exception;
+ * beyond EXCEPTION_MAX_DEPTH: abort with the overflow message and nothing of the body run. */
 #include "common.h"
 #include <errno.h>
 
-enum { STMT, THROW, SEQ, TRY, CALL };
-typedef struct Node { int kind; int n; int filt[8]; int nfilt; struct Node *a, *b; } Node;
+enum { STMT, THROW, THROWNULL, THROWBAD, RETHROW, SEQ, TRY, CALL, DEEP };
+#define MAXFILT 4
+typedef struct Node { int kind; int n; int filt[MAXFILT]; int nfilt; struct Node *a, *b; } Node;
 
 static const char* cur;
 static void skipws(void) { while (*cur == ' ') cur++; }
-static int parse_num(void) { int v = 0; skipws(); while (*cur >= '0' && *cur <= '9') { v = v*10 + (*cur - '0'); cur++; } return v; }
+static int is_digit(void) { return *cur >= '0' && *cur <= '9'; }
+static int parse_num(void) { int v = 0; skipws(); while (is_digit()) { v = v*10 + (*cur - '0'); cur++; } return v; }
 static Node* parse_node(void) {
   skipws();
   if (*cur != '(') return NULL;
   cur++; skipws();
   char k = *cur++; Node* n = calloc(1, sizeof(Node));
   switch (k) {
-    case 's': n->kind = STMT; n->n = parse_num(); break;
-    case 't': n->kind = THROW; n->n = parse_num(); break;
+    case 's': skipws(); if (!is_digit()) return NULL; n->kind = STMT; n->n = parse_num(); break;
+    case 't': skipws(); if (!is_digit()) return NULL; n->kind = THROW; n->n = parse_num(); break;
+    case 'm': skipws(); if (!is_digit()) return NULL; n->kind = THROWBAD; n->n = parse_num(); break;
+    case 'n': n->kind = THROWNULL; break;
+    case 'r': n->kind = RETHROW; break;
     case 'q': n->kind = SEQ; n->a = parse_node(); n->b = parse_node(); if (!n->a || !n->b) return NULL; break;
     case 'f': n->kind = CALL; n->a = parse_node(); if (!n->a) return NULL; break;
+    case 'd': skipws(); if (!is_digit()) return NULL; n->kind = DEEP; n->n = parse_num(); if (n->n > 4096) return NULL;
+      n->a = parse_node(); if (!n->a) return NULL; break;
     case 'c':
       n->kind = TRY; n->a = parse_node(); if (!n->a) return NULL;
       skipws(); if (*cur != '(') return NULL; cur++;
-      for (;;) { skipws(); if (*cur == ')') { cur++; break; } if (*cur < '0' || *cur > '9') return NULL;
-        if (n->nfilt >= 8) return NULL; n->filt[n->nfilt++] = parse_num(); }
+      for (;;) { skipws(); if (*cur == ')') { cur++; break; } if (!is_digit()) return NULL;
+        if (n->nfilt >= MAXFILT) return NULL; n->filt[n->nfilt++] = parse_num(); }
       n->b = parse_node(); if (!n->b) return NULL; break;
     default: return NULL;
   }
@@ -49,27 +68,38 @@ static int kind_index(var e) { for (int k = 0; k < NKINDS; k++) if (kind_obj(k) 
 static int evfd = 1;
 static void emit(char c, int n) { char b[32]; int l = snprintf(b, sizeof b, "%c%d,", c, n); if (write(evfd, b, l) < 0) {} }
 
-static void run(Node* n);
-__attribute__((noinline)) static void run_call(Node* n) { volatile int pad[16]; pad[0] = n->kind; run(n); (void)pad; }
+static void run(Node* n, var x);
+__attribute__((noinline)) static void run_call(Node* n, var x) { volatile int pad[16]; pad[0] = n->kind; run(n, x); (void)pad; }
+__attribute__((noinline)) static void run_deep(int k, Node* n, var x) {
+  volatile int pad[8]; pad[0] = k;
+  if (k <= 0) run(n, x); else run_deep(k - 1, n, x);
+  (void)pad;
+}
 
-/* the real macros; one arm per filter arity */
-static void run_try(Node* n) {
+/* the real macros; one arm per filter arity.  This is ONE try site per arity, re-entered recursively through run():
+   the same site is active several times at once whenever blocks of equal arity nest. */
+static void run_try(Node* n, var x) {
+  (void)x;
   switch (n->nfilt) {
-    case 0: try { run(n->a); } catch (e) { emit('h', kind_index(e)); run(n->b); } break;
-    case 1: try { run(n->a); } catch (e in kind_obj(n->filt[0])) { emit('h', kind_index(e)); run(n->b); } break;
-    case 2: try { run(n->a); } catch (e in kind_obj(n->filt[0]), kind_obj(n->filt[1])) { emit('h', kind_index(e)); run(n->b); } break;
-    case 3: try { run(n->a); } catch (e in kind_obj(n->filt[0]), kind_obj(n->filt[1]), kind_obj(n->filt[2])) { emit('h', kind_index(e)); run(n->b); } break;
-    default: try { run(n->a); } catch (e in kind_obj(n->filt[0]), kind_obj(n->filt[1]), kind_obj(n->filt[2]), kind_obj(n->filt[3])) { emit('h', kind_index(e)); run(n->b); } break;
+    case 0: try { run(n->a, x); } catch (e) { emit('h', kind_index(e)); run(n->b, e); } break;
+    case 1: try { run(n->a, x); } catch (e in kind_obj(n->filt[0])) { emit('h', kind_index(e)); run(n->b, e); } break;
+    case 2: try { run(n->a, x); } catch (e in kind_obj(n->filt[0]), kind_obj(n->filt[1])) { emit('h', kind_index(e)); run(n->b, e); } break;
+    case 3: try { run(n->a, x); } catch (e in kind_obj(n->filt[0]), kind_obj(n->filt[1]), kind_obj(n->filt[2])) { emit('h', kind_index(e)); run(n->b, e); } break;
+    default: try { run(n->a, x); } catch (e in kind_obj(n->filt[0]), kind_obj(n->filt[1]), kind_obj(n->filt[2]), kind_obj(n->filt[3])) { emit('h', kind_index(e)); run(n->b, e); } break;
   }
 }
 
-static void run(Node* n) {
+static void run(Node* n, var x) {
   switch (n->kind) {
     case STMT: emit('s', n->n); break;
     case THROW: throw(kind_obj(n->n), "kind %i", $I(n->n)); break;
-    case SEQ: run(n->a); run(n->b); break;
-    case CALL: run_call(n->a); break;
-    case TRY: run_try(n); break;
+    case THROWNULL: throw(NULL, "null"); break;
+    case THROWBAD: throw(kind_obj(n->n), "kind %i"); break;
+    case RETHROW: throw(x, "re"); break;
+    case SEQ: run(n->a, x); run(n->b, x); break;
+    case CALL: run_call(n->a, x); break;
+    case DEEP: run_deep(n->n, n->a, x); break;
+    case TRY: run_try(n, x); break;
   }
 }
 
@@ -93,23 +123,50 @@ static void run_lexical(int a, int b, int c, int f1, int f2, int f3) {
   emit('s', 10);
 }
 
-/* ---- direct oracle: reference interpreter (structured exceptions), independent of the Lean model ---- */
+/* ---- direct oracle: reference interpreter (structured exceptions), independent of the Lean model ----
+   Exceptions are kinds 0…NKINDS-1.  Besides the reference outcome it records where the run enters the territory of the
+   known finding KF-C07-filter-dup (a filter that lists an object twice is asked about an exception outside its
+   duplicate-free prefix) and where the nesting would exceed EXCEPTION_MAX_DEPTH. */
 static char obuf[1 << 16]; static size_t olen;
-static void oemit(char c, int n) { olen += snprintf(obuf + olen, sizeof obuf - olen, "%c%d,", c, n); }
-static int oeval(Node* n) { /* returns -1 = completed, else the escaping kind */
+static long o_dup_at, o_over_at;   /* trace length at the first such point, -1 = never */
+static int o_stop;
+static void oemit(char c, int n) { if (!o_stop) olen += snprintf(obuf + olen, sizeof obuf - olen, "%c%d,", c, n); }
+static int in_dupfree_prefix(Node* n, int r) {  /* is r among the items the identity walk visits before it cycles? */
+  for (int i = 0; i < n->nfilt; i++) {
+    for (int j = 0; j < i; j++) if (n->filt[j] % NKINDS == n->filt[i] % NKINDS) return 0;  /* item i repeats: the walk cycles from here */
+    if (n->filt[i] % NKINDS == r) return 1;
+  }
+  return -1;  /* duplicate-free filter, r not in it */
+}
+static int oeval(Node* n, int x, size_t depth) { /* returns -1 = completed, else the escaping kind */
+  if (o_stop) return -1;
   switch (n->kind) {
     case STMT: oemit('s', n->n); return -1;
-    case THROW: return n->n % NKINDS;
-    case SEQ: { int r = oeval(n->a); if (r >= 0) return r; return oeval(n->b); }
-    case CALL: return oeval(n->a);
+    case THROW: case THROWBAD: return n->n % NKINDS;
+    case THROWNULL: return -1;  /* not judged: see out_of_domain() */
+    case RETHROW: return x;
+    case SEQ: { int r = oeval(n->a, x, depth); if (r >= 0 || o_stop) return r; return oeval(n->b, x, depth); }
+    case CALL: case DEEP: return oeval(n->a, x, depth);
     case TRY: {
-      int r = oeval(n->a); if (r < 0) return -1;
+      if (depth >= EXCEPTION_MAX_DEPTH) { if (o_over_at < 0) o_over_at = (long)olen; o_stop = 1; return -1; }
+      int r = oeval(n->a, x, depth + 1); if (r < 0 || o_stop) return -1;
       int m = n->nfilt == 0; for (int i = 0; i < n->nfilt; i++) if (n->filt[i] % NKINDS == r) m = 1;
+      if (n->nfilt > 0 && in_dupfree_prefix(n, r) == 0 && o_dup_at < 0) o_dup_at = (long)olen;
       if (!m) return r;
-      oemit('h', r); return oeval(n->b);
+      oemit('h', r); return oeval(n->b, r, depth);
     }
   }
   return -1;
+}
+static int out_of_domain(Node* n) {
+  if (!n) return 0;
+  if (n->kind == THROWNULL || n->kind == THROWBAD) return 1;
+  return out_of_domain(n->a) || out_of_domain(n->b);
+}
+static int has_dup_filter(Node* n) {
+  if (!n) return 0;
+  if (n->kind == TRY) for (int i = 0; i < n->nfilt; i++) for (int j = 0; j < i; j++) if (n->filt[i] % NKINDS == n->filt[j] % NKINDS) return 1;
+  return has_dup_filter(n->a) || has_dup_filter(n->b);
 }
 
 static void strip_comma(char* s) { size_t l = strlen(s); if (l && s[l-1] == ',') s[l-1] = 0; }
@@ -118,7 +175,7 @@ int main(int argc, char** argv) {
   v_init();
   if (argc < 2) { fprintf(stderr, "usage: h_exn <opfile>\n"); return 2; }
   size_t n; char** lines = v_read_lines(argv[1], &n);
-  size_t nprog = 0;
+  size_t nprog = 0, n_ood = 0, n_dup = 0, n_over = 0;
   /* make sure the main thread's Exception object exists before forking */
   (void)len(current(Exception));
   for (size_t li = 0; li < n; li++) {
@@ -138,6 +195,7 @@ int main(int argc, char** argv) {
     }
     if (!prog) { O("bad-op"); continue; }
     nprog++;
+    int dupf = has_dup_filter(prog);
     int ev[2], er[2];
     if (pipe(ev) || pipe(er)) { perror("pipe"); return 2; }
     fflush(stdout);
@@ -145,9 +203,9 @@ int main(int argc, char** argv) {
     if (pid == 0) {
       close(ev[0]); close(er[0]); evfd = ev[1];
       dup2(er[1], 2);
-      alarm(20);
+      alarm(dupf ? 2 : 20);
       size_t d0 = len(current(Exception));
-      if (is_lex) run_lexical(lex[0], lex[1], lex[2], lex[3], lex[4], lex[5]); else run(prog);
+      if (is_lex) run_lexical(lex[0], lex[1], lex[2], lex[3], lex[4], lex[5]); else run(prog, kind_obj(0));
       size_t d1 = len(current(Exception));
       char b[64]; int bl = snprintf(b, sizeof b, "|%zu|%zu", d0, d1); if (write(evfd, b, bl) < 0) {}
       _exit(0);
@@ -164,19 +222,43 @@ int main(int argc, char** argv) {
     if (bar) { *bar = 0; if (sscanf(bar + 1, "%zu|%zu", &d0, &d1) == 2) { completed = 1; snprintf(depth, sizeof depth, "%zu", d1); } }
     strip_comma(tbuf);
     const char* end;
-    if (WIFSIGNALED(st)) end = WTERMSIG(st) == SIGABRT ? "abort" : "signal";
+    if (WIFSIGNALED(st)) end = WTERMSIG(st) == SIGABRT ? "abort" : WTERMSIG(st) == SIGALRM ? "hang" : "signal";
     else if (completed && WEXITSTATUS(st) == 0) end = "normal";
     else if (!completed && WEXITSTATUS(st) == EXIT_FAILURE) end = "fatal";
     else end = "other";
     O("trace=%s end=%s depth=%s", tbuf, end, depth);
     /* oracle */
-    olen = 0; obuf[0] = 0; int esc = oeval(prog); strip_comma(obuf);
-    if (strcmp(obuf, tbuf) != 0) X("sig=exn-trace line=%zu what=handlers/statements differ from block structure: got [%s] want [%s]", li + 1, tbuf, obuf);
+    if (completed && d0 != d1) X("sig=exn-depth line=%zu what=nesting depth %zu before, %zu after", li + 1, d0, d1);
+    if (out_of_domain(prog)) {
+      /* throw(NULL) / malformed message: outside the object domain the property speaks about; the behaviour is modelled
+         (correspondence), refuted in Lean (C07_throw_null_refuted, C07_bad_message_refuted), not judged here */
+      n_ood++; continue;
+    }
+    olen = 0; obuf[0] = 0; o_dup_at = -1; o_over_at = -1; o_stop = 0;
+    int esc = oeval(prog, 0, 0);
+    if (o_over_at >= 0) {
+      /* the nesting does not fit: exception_try must abort at that block, nothing after the events so far */
+      n_over++;
+      obuf[o_over_at] = 0; strip_comma(obuf);
+      if (strcmp(end, "abort") != 0 || strcmp(obuf, tbuf) != 0 || !strstr(ebuf, "Exception Buffer Overflow"))
+        X("sig=exn-overflow line=%zu what=nesting beyond EXCEPTION_MAX_DEPTH: want abort with the overflow message after [%s], got end=%s after [%s]", li + 1, obuf, end, tbuf);
+      continue;
+    }
+    static char full[1 << 16]; memcpy(full, obuf, olen + 1); strip_comma(full);
+    int as_reference = strcmp(full, tbuf) == 0 && strcmp(end, esc < 0 ? "normal" : "fatal") == 0;
+    if (!as_reference && o_dup_at >= 0 && strcmp(end, "hang") == 0) {
+      static char pre[1 << 16]; memcpy(pre, obuf, o_dup_at); pre[o_dup_at] = 0; strip_comma(pre);
+      if (strcmp(pre, tbuf) == 0) {
+        n_dup++;
+        X("sig=KF-C07-filter-dup line=%zu what=a catch filter that lists an object twice was asked about an exception outside its duplicate-free prefix: exception_catch never returned (events so far [%s]); block structure wants [%s] end=%s", li + 1, tbuf, full, esc < 0 ? "normal" : "fatal");
+        continue;
+      }
+    }
+    if (strcmp(full, tbuf) != 0) X("sig=exn-trace line=%zu what=handlers/statements differ from block structure: got [%s] want [%s]", li + 1, tbuf, full);
     if (esc < 0 && strcmp(end, "normal") != 0) X("sig=exn-end line=%zu what=program without escaping exception ended %s", li + 1, end);
     if (esc >= 0 && strcmp(end, "fatal") != 0) X("sig=exn-end line=%zu what=uncaught exception did not terminate with failure status (ended %s)", li + 1, end);
     if (esc >= 0 && !strstr(ebuf, "Uncaught")) X("sig=exn-diag line=%zu what=no diagnostic for uncaught exception", li + 1);
-    if (completed && d0 != d1) X("sig=exn-depth line=%zu what=nesting depth %zu before, %zu after", li + 1, d0, d1);
   }
-  I("programs=%zu", nprog);
+  I("programs=%zu out_of_domain=%zu dup_filter_hangs=%zu overflow=%zu", nprog, n_ood, n_dup, n_over);
   return 0;
 }
